@@ -110,7 +110,7 @@ MORE4 = {
  "C08": " A class declared inside a function can be declared again on the next call.",
  "C11": " The compilation queue: every queued module is compiled and delivered exactly once, with its own code.",
  "C13": " map / filter yield a new list (bridge new / finish).",
- "C16": " `Self` outside a class and `self: T` are diagnostics; the grammar's ordered choices do not parse a nesting construct twice (certificates over the extracted rule graph, checked by the verifier).",
+ "C16": " `Self` outside a class and `self: T` are diagnostics; the grammar's ordered choices do not parse a nesting construct twice (certificates over the extracted rule graph, checked by the verifier). `mscript compile` calls the compiler on a thread whose stack covers 4096 levels of recursion (per-level cost assumed, D103).",
  "C17": " Known finding D102 (the trace also lists block frames).",
 }
 for _k, _v in MORE4.items():
